@@ -46,10 +46,15 @@ pub fn exec(c: &[i64]) -> Vec<i64> {
             let mut director = Director::new(NullConfig);
             let task = tokio::spawn(async move { director.wait_io_sub(command_tx, signal_rx).await; });
             let mut out: Vec<i64> = Vec::new(); let mut n = 0i64; let mut i = 0usize;
+            // 500 g ...: the signals are published g at a time; the director only runs after each group
+            let group = if cv.first() == Some(&500) { i = 2; (cv[1].max(1) as usize).min(60) } else { 1 };
             while i < cv.len() {
-                let Some(sig) = signal_of(&cv, &mut i) else { return vec![-2] };
-                signal_tx.send(sig).unwrap();
-                for _ in 0..8 { tokio::task::yield_now().await; }
+                for _ in 0..group {
+                    if i >= cv.len() { break; }
+                    let Some(sig) = signal_of(&cv, &mut i) else { return vec![-2] };
+                    signal_tx.send(sig).unwrap();
+                }
+                for _ in 0..(8 + 4 * group) { tokio::task::yield_now().await; }
                 let mut cmds: Vec<i64> = Vec::new(); let mut k = 0i64;
                 while let Ok(o) = command_rx.try_recv() { enc_cmd(&o, &mut cmds); k += 1; }
                 out.push(k); out.extend(cmds); n += 1;
@@ -71,6 +76,28 @@ fn angle(rng: &mut Rng) -> i64 {
 pub fn gen(o: &Opts, sink: &mut dyn FnMut(Vec<i64>, String)) {
     let mut k: u64 = 0;
     macro_rules! put { ($c:expr) => {{ k += 1; if mine(o, k) { sink($c, String::new()); } }}; }
+    // bursts: signals queue up on the director's channel (2, 3, 5, 16 at a time) - every queued reading still gets
+    // its own decision: an overspeed / tilt reading followed by a normal one in the same burst is not swallowed
+    {
+        let mut rng = Rng::new(o.seed, 9_500);
+        let nb = if o.tier_thorough { 20_000 } else { 2_000 };
+        for j in 0..nb {
+            let g = *rng.pick(&[2i64, 2, 3, 5, 16]);
+            let mut c = vec![500, g];
+            let len = 2 + rng.below(12);
+            for _ in 0..len {
+                match rng.below(7) {
+                    0 | 1 => c.extend([1, *rng.pick(&[800i64, 1500, 2199, 2201, 2500, 3000, 0, 65535])]),
+                    2 => c.extend([1, rng.below(4000) as i64]),
+                    3 | 4 => { let (r, p) = if rng.chance(1, 2) { (angle(&mut rng), 0) } else { (angle(&mut rng), angle(&mut rng)) }; c.extend([2, *rng.pick(&[0x7ai64, 0x6a, 0x6b]), r, p, 1]); }
+                    5 => c.extend([2, 0x7a, 0, 0, 1]),
+                    _ => c.extend([3, rng.below(5) as i64]),
+                }
+            }
+            let _ = j;
+            put!(c);
+        }
+    }
     // every rpm value after each of 6 prior verdict states
     let priors: [Vec<i64>; 6] = [vec![], vec![1, 1000], vec![1, 2300], vec![2, 0x7a, 5000, 0, 1], vec![2, 0x7a, 1000, 0, 1], vec![2, 0x6b, 0, 7000, 1]];
     let step = if o.tier_thorough { 1 } else { 13 };
